@@ -11,6 +11,7 @@ package pubsub
 import (
 	"context"
 	"fmt"
+	"slices"
 	"sort"
 	"strings"
 	"testing"
@@ -539,6 +540,10 @@ func TestVerifC17Promise(t *testing.T) {
 			params.D, params.Dlo, params.Dhi, params.Dscore, params.Dout = 2, 1, 3, 1, 0
 			params.IWantFollowupTime = time.Duration(c.Range(1, 3)) * time.Second
 			params.MaxIHaveLength, params.MaxIHaveMessages = 50, 20
+			if c.Chance(0.5) {
+				// a small request budget: an advertisement of several IDs is only partly requested
+				params.MaxIHaveLength = c.Range(1, 4)
+			}
 			F := params.IWantFollowupTime
 			th := PeerScoreThresholds{GossipThreshold: -1e6, PublishThreshold: -2e6, GraylistThreshold: -3e6, AcceptPXThreshold: 1000, OpportunisticGraftThreshold: 0}
 			valDelay := []time.Duration{0, 0, 200 * time.Millisecond, F + 1500*time.Millisecond, F + 2500*time.Millisecond}[c.Intn(5)]
@@ -570,6 +575,7 @@ func TestVerifC17Promise(t *testing.T) {
 			w.r.ToNextGap(30 * time.Millisecond)
 			type promise struct {
 				id      string
+				ids     []string // what the node really asked for out of the advertisement
 				adv     *gsPup
 				asked   time.Time
 				arrival string // how the message arrives
@@ -584,23 +590,36 @@ func TestVerifC17Promise(t *testing.T) {
 				id := fmt.Sprintf("q%04d", k)
 				tt := "t"
 				mark := adv.p.WireLen()
-				w.send(adv, &pb.RPC{Control: &pb.ControlMessage{Ihave: []*pb.ControlIHave{{TopicID: &tt, MessageIDs: []string{id}}}}})
+				advIDs := []string{id}
+				E := []int{0, 0, 2, 5, 9}[c.Intn(5)]
+				if valInline && valDelay > 200*time.Millisecond {
+					// (slow inline validators occupy the validation workers, one per CPU: more messages than workers would
+					// wait in the validation queue, where the node has not looked at them yet; see DESIGN.md 0.5)
+					E = 0
+				}
+				for e := 0; e < E; e++ {
+					advIDs = append(advIDs, fmt.Sprintf("x%02d%02d", k, e))
+				}
+				w.send(adv, &pb.RPC{Control: &pb.ControlMessage{Ihave: []*pb.ControlIHave{{TopicID: &tt, MessageIDs: advIDs}}}})
 				vSettle(10 * time.Millisecond)
-				askedFor := false
+				var asked []string
 				for _, wr := range adv.p.WireSince(mark) {
 					for _, iw := range wr.RPC.GetControl().GetIwant() {
 						for _, x := range iw.GetMessageIDs() {
-							if x == id {
-								askedFor = true
+							if slices.Contains(advIDs, x) {
+								asked = append(asked, x)
 							}
 						}
 					}
 				}
-				if !askedFor {
+				if len(asked) == 0 {
 					classes["not_requested"]++
 					continue
 				}
-				p := &promise{id: id, adv: adv, asked: time.Now(), arrival: []string{"in_time", "in_time", "in_time_from_other", "late", "never", "just_in_time"}[c.Intn(6)]}
+				if len(asked) < len(advIDs) {
+					classes["partly_requested"]++
+				}
+				p := &promise{id: id, ids: asked, adv: adv, asked: time.Now(), arrival: []string{"in_time", "in_time", "in_time_from_other", "late", "never", "just_in_time"}[c.Intn(6)]}
 				ps = append(ps, p)
 				w.note("promise(%s by %s, arrival %s)", id, adv.p.name, p.arrival)
 			}
@@ -640,8 +659,11 @@ func TestVerifC17Promise(t *testing.T) {
 				if wait := d.at - time.Since(start); wait > 0 {
 					time.Sleep(wait)
 				}
-				seq++
-				w.send(d.from, vMsgRPC(vSignedMsg(d.from.p.key, "t", vSeqno(seq), c17Data(d.p.id, 40))))
+				// everything that was asked for out of this advertisement arrives together
+				for _, x := range d.p.ids {
+					seq++
+					w.send(d.from, vMsgRPC(vSignedMsg(d.from.p.key, "t", vSeqno(seq), c17Data(x, 40))))
+				}
 				d.p.arrived = time.Now()
 				w.note("deliver(%s from %s)", d.p.id, d.from.p.name)
 			}
